@@ -956,12 +956,26 @@ impl TypeCheckVisitor<'_> {
                 Type::unit()
             }
             Expression_::ForIn(dest, expr, body) => {
-                let expr_ty = self.check_expr(
-                    &Type::list(Type::Any),
-                    expr,
-                    type_bindings,
-                    expected_return_ty,
-                );
+                // Infer the type rather than checking against
+                // `List<Any>`, which would accept a list literal
+                // whose items have different types.
+                let mut expr_ty = self.infer_expr(expr, type_bindings, expected_return_ty);
+
+                let expected_ty = Type::list(Type::Any);
+                if !is_subtype(&expr_ty, &expected_ty) {
+                    self.diagnostics.push(Diagnostic {
+                        notes: vec![],
+                        fixes: vec![],
+                        severity: Severity::Error,
+                        message: format_type_mismatch(&expected_ty, &expr_ty),
+                        position: expr.position.clone(),
+                    });
+
+                    expr_ty = Type::Error {
+                        internal_reason: "Type mismatch".to_owned(),
+                        inferred_type: Some(Box::new(expr_ty)),
+                    };
+                }
 
                 self.bindings.enter_block();
 
